@@ -344,3 +344,5 @@ RULE_ADDENDA_6 = {
 }
 for _k, _v in RULE_ADDENDA_6.items():
     PROPS[_k]["rule"] += "; added after the sixth round: " + _v
+
+PROPS["C17"]["rule"] += "; after the fault series two gated, overlapping fault-free WriteTo calls (this segment and a small other one) must each deliver exactly their own image"
